@@ -25,7 +25,8 @@ CONTENTS = {
     "crlf": b"gamma line\r\ndelta line\r\n",
     "bin": b"\x00\x01binary\r\nwith cr lf pairs\r\n\xff",
 }
-FILES = {"p": "p.txt", "q": "q é.dat"}
+# (the two files share their base name, one level apart: whatever is named after the base name alone collides)
+FILES = {"p": "p.txt", "q": "sub e\u0301/p.txt"}
 ALG = {"legacy": "md5-dos2unix", "cache": "md5", "plain": "md5"}
 LOCAL = ("legacy", "cache")
 
@@ -80,6 +81,7 @@ class Lab:
     def edit(self, p, c, how="rewrite"):
         fp = self.path(p)
         old = os.stat(fp).st_mtime_ns if os.path.exists(fp) else None
+        os.makedirs(os.path.dirname(fp), exist_ok=True)
         tmp = fp + ".new"
         with open(tmp, "wb") as fh:
             fh.write(CONTENTS[c])
